@@ -27,6 +27,8 @@ def _impl(mod, cases):
 def explore(mod, tier, seed, tag=""):
     """generate the cases of a tier, run the implementation and the Coq drivers.
     returns (cases, ev, meta, ncorpus) with ev = dict(n, lists, obs, errors)"""
+    if hasattr(mod, "families"):
+        return explore_families(mod, tier, seed, tag)
     corpus = _load_corpus(mod)
     if hasattr(mod, "gen_and_run"):
         cases, obs, meta = mod.gen_and_run(tier, seed)
@@ -41,6 +43,36 @@ def explore(mod, tier, seed, tag=""):
                                       shard_size=getattr(mod, "SHARD", 400), tag=tag)
     n, lists = core.merge_reports(reports, mod.WIDTH)
     return cases, {"n": n, "lists": lists, "obs": obs, "errors": errors}, meta, len(corpus)
+
+
+def explore_families(mod, tier, seed, tag=""):
+    """a property decided through several correspondence drivers (families):
+    each family brings its own driver, cases, observations and literals"""
+    fams, meta = mod.families(tier, seed)
+    cases, obs, errors = [], [], []
+    n = 0
+    lists = [[], [], []]
+    for fam in fams:
+        fm = fam["mod"]
+        lits = [fam["literal"](c, o) for c, o in zip(fam["cases"], fam["obs"])]
+        reports, errs = core.run_shards(mod.PROP, fm.HEADER, fm.CASE_TYPE, fm.DRIVER, lits,
+                                        shard_size=getattr(fm, "SHARD", 400), tag=tag + fam["name"])
+        fn, flists = core.merge_reports(reports, fm.WIDTH)
+        off = len(cases)
+        for i in range(3):
+            if i < fm.WIDTH:
+                lists[i].extend(off + j for j in flists[i])
+        n += fn
+        errors += errs
+        for c, o in zip(fam["cases"], fam["obs"]):
+            cases.append({"family": fam["name"], "case": c})
+            obs.append(o)
+    if getattr(mod, "SPEC_IS_MODEL", False):
+        # the property's predicate is "the observation equals the model" (the families' own
+        # specifications, and their known findings, belong to the other properties)
+        lists[1] = list(lists[0])
+        lists[2] = []
+    return cases, {"n": n, "lists": lists, "obs": obs, "errors": errors}, meta, 0
 
 
 def classify(mod, cases, ev, findings):
